@@ -1,6 +1,7 @@
 package props
 
 import (
+	"bufio"
 	"bytes"
 	"crypto/sha256"
 	"fmt"
@@ -145,6 +146,47 @@ func c14XZWriter(cfg xz.WriterConfig, data []byte) c14Body {
 		err = xw.Close()
 		fmt.Fprintf(&log, "c:%v;", err)
 		return append(log.Bytes(), w.b...)
+	}}
+}
+
+// c14XZWriterBufio: as c14XZWriter, the sink is a *bufio.Writer (64 bytes) over the scheduling sink,
+// flushed by the caller after Close; the data is handed over by io.Copy from a bare reader.
+func c14XZWriterBufio(cfg xz.WriterConfig, data []byte) c14Body {
+	return c14Body{kind: "xzW(bufio sink, io.Copy)", run: func(point func()) []byte {
+		w := &pointWriter{point: point}
+		bw := bufio.NewWriterSize(w, 64)
+		var log bytes.Buffer
+		point()
+		xw, err := cfg.NewWriter(bw)
+		if err != nil {
+			return []byte("ctor:" + err.Error())
+		}
+		point()
+		_, err = io.Copy(xw, &bareSource{data: data, step: 37, eofLast: true})
+		fmt.Fprintf(&log, "copy:%v;", err)
+		point()
+		err = xw.Close()
+		fmt.Fprintf(&log, "c:%v;", err)
+		point()
+		fmt.Fprintf(&log, "f:%v;", bw.Flush())
+		return append(log.Bytes(), w.b...)
+	}}
+}
+
+// c14XZReaderBufio: as c14XZReader, the source is a *bufio.Reader (16 bytes) over the scheduling source,
+// and the data is taken out by io.Copy.
+func c14XZReaderBufio(stream []byte) c14Body {
+	return c14Body{kind: "xzR(bufio source, io.Copy)", run: func(point func()) []byte {
+		src := &pointReader{r: bytes.NewReader(stream), point: point, frag: 7}
+		point()
+		rd, err := xz.ReaderConfig{DictCap: 4096}.NewReader(bufio.NewReaderSize(src, 16))
+		if err != nil {
+			return []byte("ctor:" + err.Error())
+		}
+		var out bareSink
+		point()
+		_, err = io.Copy(&out, rd)
+		return append(out.b, []byte(fmt.Sprintf("|%v", err))...)
 	}}
 }
 
@@ -430,6 +472,10 @@ func c14Scenarios() []c14Scn {
 		// failed call and Close repeated), then two LZMA2 writers side by side: whatever an instance
 		// hands back on its way out must not be handed to two later instances
 		{"sweep(lzma2W) then lzma2W(Flush)|lzma2W(Flush)", []c14Body{c14Seq(c14FaultSweepM("lzma2W", []bool{false}), c14LZMA2Writer(lzma.Writer2Config{DictCap: 4096}, t[:130])), c14LZMA2Writer(lzma.Writer2Config{DictCap: 4096}, t[30:150])}},
+		// buffered sinks and sources (what gxz passes), data moved by io.Copy: fast paths for such
+		// objects and ReadFrom / WriteTo methods must not share anything between instances either
+		{"xzW(bufio sink, io.Copy)|xzW(bufio sink, io.Copy)", []c14Body{c14XZWriterBufio(small, t[:150]), c14XZWriterBufio(xz.WriterConfig{DictCap: 4096, CheckSum: xz.CRC32}, t[30:170])}},
+		{"xzR(bufio source, io.Copy)|xzR(bufio source, io.Copy)", []c14Body{c14XZReaderBufio(stream), c14XZReaderBufio(stream2)}},
 		// two classic readers whose headers differ in every field (properties, dictionary size, size)
 		{"lzmaR|lzmaR different headers", []c14Body{c14LZMAReader(mustLibLZMA(LZCfg{DictCap: 4096}, t[:60])), c14LZMAReader(mustLibLZMA(LZCfg{Props: true, LC: 0, LP: 2, PB: 1, DictCap: 1 << 16, SizeInHeader: true, Size: 50}, t[30:80]))}},
 		{"lzmaW|lzmaW same props (bufio)", []c14Body{c14LZMAWriter(lzma.WriterConfig{DictCap: 4096}, t[:90], false), c14LZMAWriter(lzma.WriterConfig{DictCap: 4096}, t[10:100], false)}},
